@@ -212,3 +212,21 @@ EXTRA["C12"] = EXTRA.get("C12", []) + [
 EXTRA["C13"] = EXTRA.get("C13", []) + [
     M("musig-single-key-indexerror", "taproot.py", "        if len(self.coefs) > 1:\n            self.coefs[1] = 1\n", "        self.coefs[1] = 1\n", ["C13.1"], "single-key aggregate raises (F48 undone)"),
 ]
+
+# round 5 of refactorings: the cells written so that structural rules can defer to them each decide something on their own
+EXTRA["C01"] = EXTRA.get("C01", []) + [
+    M("detk-retry-rekey", "pecc.py", "                return candidate\n            k = hmac.new(k, v + b\"\\x00\", s256).digest()\n", "                return candidate\n            k = hmac.new(k, v + b\"\\x01\", s256).digest()\n",
+      ["C01.22"], "the RFC 6979 retry branch re-keys with 0x01 (unreachable by choice of input: probability 2^-128)"),
+    M("detk-retry-no-v", "pecc.py", "            k = hmac.new(k, v + b\"\\x00\", s256).digest()\n            v = hmac.new(k, v, s256).digest()\n\n    def sign_message", "            k = hmac.new(k, v + b\"\\x00\", s256).digest()\n\n    def sign_message",
+      ["C01.22"], "the RFC 6979 retry branch does not update V after re-keying"),
+]
+EXTRA["C02"] = EXTRA.get("C02", []) + [
+    M("verify-odd-result", "pecc.py", "        if result.parity:\n            return False\n        return result.xonly() == schnorr_sig.r.xonly()", "        return result.xonly() == schnorr_sig.r.xonly()",
+      ["C02.16", "C02.4"], "a signature built from the negated nonce verifies"),
+]
+EXTRA["C03"] = EXTRA.get("C03", []) + [
+    M("ctor-curve-ne-to-lt", "pecc.py", "        if self.y**2 != self.x**3 + a * x + b:", "        if self.y**2 != self.x**3 + a * x + b and self.x.num > 2:", ["C03.23", "C03.2"], "points with x <= 2 are not tested for membership"),
+]
+EXTRA["C11"] = EXTRA.get("C11", []) + [
+    M("change-total-skipped", "psbt.py", "            total_sats += output_desc[\"sats\"]\n\n            if psbt_out.named_pubs:", "            if psbt_out.named_pubs:", ["C11.20", "C11.5"], "outputs are not added to the total"),
+]
